@@ -209,6 +209,10 @@ func cmdCheck(args []string) int {
 			continue
 		}
 		claimed := hasTag(fc.Tags, *prop)
+		if !claimed && len(fc.Tags) > 0 && hasTag(strings.Fields(fc.Options["safety-tags"]), *prop) {
+			// a function verified for another property whose safety obligations belong to this one
+			claimed = true
+		}
 		if !claimed {
 			for _, cl := range fc.Ensures {
 				if hasTag(cl.Tags, *prop) {
@@ -244,7 +248,7 @@ func cmdCheck(args []string) int {
 		}
 		vc := newFnVC(p, fn, p.cs.Funcs[id], id)
 		vc.prop = *prop
-		scanOnly := !hasTag(vc.fc.Tags, *prop) || *prop == "C19"
+		scanOnly := (!hasTag(vc.fc.Tags, *prop) && !(len(vc.fc.Tags) > 0 && hasTag(strings.Fields(vc.fc.Options["safety-tags"]), *prop))) || *prop == "C19"
 		for _, cl := range vc.fc.Ensures {
 			if hasTag(cl.Tags, *prop) {
 				scanOnly = false
@@ -277,6 +281,9 @@ func cmdCheck(args []string) int {
 		}
 		for _, o := range vc.obls {
 			if o.Class == "smoke" || hasTag(o.Tags, *prop) {
+				if cls := p.cs.PropertyClasses[*prop]; len(cls) > 0 && o.Class != "smoke" && !hasTag(cls, o.Class) {
+					continue
+				}
 				all = append(all, o)
 			}
 		}
